@@ -152,7 +152,8 @@ def run_case(case, ctx):
                 ok = list(res.columns) == list(x.columns)
         ctx.check('nona_model', ok, lambda: 'nona(%s %r, edge=%r) = %s %r ; model keeps rows %r' % (case['kind'], case['cols'], edge, st, res, keep))
     else:
-        st, res = ctx.call(df_fillna, x, method, 0, limit) if case.get('positional') else ctx.call(df_fillna, x, method=method, limit=limit)
+        lim_arg = np.int64(limit) if (limit is not None and case.get('np_limit')) else limit
+        st, res = ctx.call(df_fillna, x, method, 0, lim_arg) if case.get('positional') else ctx.call(df_fillna, x, method=method, limit=lim_arg)
         exp, keep = cols, list(range(len(cols[0])))
         for m in methods:
             exp, k2 = m_apply(exp, m, limit)
@@ -239,6 +240,8 @@ def gen_random(rng):
     if any(isinstance(m, float) for m in (method if isinstance(method, list) else [method])):
         limit = None
     case = {'kind': kind, 'cols': cols, 'method': method, 'limit': limit, 'positional': rng.random() < 0.2}
+    if limit is not None and rng.random() < 0.25:
+        case['np_limit'] = True
     if rng.random() < 0.2:
         # +-inf are ordinary non-NaN cells: never filled, never changed
         for c in cols:
